@@ -5,7 +5,10 @@ use autosar_data_specification::{
     AttributeName, AttributeSpec, AutosarVersion, ContentMode, ElementMultiplicity, ElementName,
 };
 use fxhash::FxHashMap;
+#[cfg(not(autosar_data_verif))]
 use parking_lot::RwLock;
+#[cfg(autosar_data_verif)]
+use crate::verif_shim::RwLock;
 use smallvec::SmallVec;
 use std::collections::HashSet;
 use std::sync::Arc;
